@@ -1,5 +1,6 @@
 """C17 Plotted model SEDs are the fitted models."""
 import ast
+import re
 from fractions import Fraction
 
 from .. import alg
@@ -49,13 +50,21 @@ def run(ctx):
         raise AnalysisError('plot(): fit loop not found')
     lp = loops[0]
     i = lp.target.id
+    m_ = re.search(r'(\w+)\.n_fits', up(lp.iter))
+    rec = m_.group(1) if m_ else 'info'
+    apn = [t.id for t, v, st in stores(plot.node) if isinstance(t, ast.Name) and 'aperture_arcsec' in up(v)]
+    if not apn:
+        raise AnalysisError('plot(): aperture list not found')
+    apn = apn[0]
+    uqn = [t.id for t, v, st in stores(plot.node) if isinstance(t, ast.Name) and isinstance(v, ast.Call) and (chain(v.func) or '').endswith('unique') and up(v.args[0]) == apn]
+    uqn = uqn[0] if uqn else 'unique_ap'
     ra = [up(a).replace(' ', '') for a in lp.iter.args]
     ctx.expect(ra == ['info.n_fits-1', '-1', '-1'], 'CFG-13', 'fit loop runs from the worst selected fit to the best', where(plot, lp), 'range(n_fits - 1, -1, -1): the best fit is appended last',
                'loop is range(%s)' % ', '.join(ra), 'loop-order')
     per_fit = ('model_name', 'sc', 'av', 'chi2', 'model_fluxes')
     bad, n = [], 0
     for s in walk_local(lp):
-        if isinstance(s, ast.Subscript) and up(s.value) in ['info.%s' % a for a in per_fit]:
+        if isinstance(s, ast.Subscript) and up(s.value) in ['%s.%s' % (rec, a) for a in per_fit]:
             n += 1
             ix = s.slice.elts[0] if isinstance(s.slice, ast.Tuple) else s.slice
             if up(ix) != i:
@@ -66,14 +75,14 @@ def run(ctx):
     sa = [c for c in calls(lp) if isinstance(c.func, ast.Attribute) and c.func.attr == 'scale_to_av']
     gs = [c for c in calls(lp) if isinstance(c.func, ast.Attribute) and c.func.attr == 'get_sed']
     rd = [c for c in calls(lp) if (chain(c.func) or '').endswith('SED.read')]
-    ok = len(sd) == 1 and len(sa) == 1 and len(sa[0].args) == 2 and up(sa[0].args[0]) == 'info.av[%s]' % i and up(sa[0].args[1]) == 'info.meta.extinction_law.get_av'
+    ok = len(sd) == 1 and len(sa) == 1 and len(sa[0].args) == 2 and up(sa[0].args[0]) == '%s.av[%s]' % (rec, i) and up(sa[0].args[1]) == '%s.meta.extinction_law.get_av' % rec
     ctx.expect(ok, 'PERM-8', 'reddening uses the fit\'s A_V and the stored law', where(plot, sa[0] if sa else lp), 's.scale_to_av(info.av[%s], info.meta.extinction_law.get_av)' % i,
                'scale_to_av called as %s' % [up(c) for c in sa], 'reddening-wiring')
-    ok = bool(gs) and all(up(c.args[0]) == 'info.model_name[%s]' % i for c in gs) and bool(rd) and all(('info.model_name[%s]' % i) in up(c) for c in rd)
+    ok = bool(gs) and all(up(c.args[0]) == '%s.model_name[%s]' % (rec, i) for c in gs) and bool(rd) and all(('%s.model_name[%s]' % (rec, i)) in up(c) for c in rd)
     ctx.expect(ok, 'PERM-8', 'the SED fetched is the fitted model', where(plot, gs[0] if gs else lp), 'SED of info.model_name[%s] (file or cube)' % i, 'SED fetched as %s' % [up(c)[:80] for c in gs + rd], 'sed-fetch')
     # ---- ALG-16 distance argument
     I = Interp(repo)
-    env = {'__module__': pm, 'info': Obj(repo.cls('fit_info', 'FitInfo'), {'sc': symarr('sc', ('r',), unit=num(1)), 'av': symarr('av', ('r',), unit=num(1))}), i: Pinned('r')}
+    env = {'__module__': pm, rec: Obj(repo.cls('fit_info', 'FitInfo'), {'sc': symarr('sc', ('r',), unit=num(1)), 'av': symarr('av', ('r',), unit=num(1))}), i: Pinned('r')}
     if sd:
         darg = I.expr(sd[0].args[0], dict(env), pm)
         kpc = pm.globals.get('KPC')
@@ -132,27 +141,31 @@ def run(ctx):
             cur = cur.orelse[0]
         else:
             break
-    want_sel = {'interp': ('ap', 'interpolate_variable', 1), 'largest': ('np.array([ap.max()])', 'interpolate', 2),
-                'largest+smallest': ('np.array([ap.min(), ap.max()])', 'interpolate', 2), 'all': ('unique_ap', 'interpolate', 2)}
-    curves = {'interp': '1', 'largest': '1', 'largest+smallest': '2', 'all': 'len(unique_ap)'}
+    want_sel = {'interp': (apn, 'interpolate_variable', 1), 'largest': ('np.array([%s.max()])' % apn, 'interpolate', 2),
+                'largest+smallest': ('np.array([%s.min(), %s.max()])' % (apn, apn), 'interpolate', 2), 'all': (uqn, 'interpolate', 2)}
+    curves = {'interp': '1', 'largest': '1', 'largest+smallest': '2', 'all': 'len(%s)' % uqn}
     ranks = {}
+    flux_names = set()
     for mode in MODES:
         body = branches.get(mode)
         inst = 'display mode %r' % mode
         if body is None:
             ctx.violation('FLAG', inst, where(plot, mode_if), 'documented display mode is not handled', 'mode-missing')
             continue
-        apdef = [(t, v) for st in body for t, v, s2 in stores(st) if isinstance(t, ast.Name) and t.id == 'apertures']
-        fl = [(t, v) for st in body for t, v, s2 in stores(st) if isinstance(t, ast.Name) and t.id == 'flux']
+        fl = [(t, v) for st in body for t, v, s2 in stores(st) if isinstance(t, ast.Name) and isinstance(v, ast.Call) and isinstance(v.func, ast.Attribute) and v.func.attr.startswith('interpolate')]
+        apname = up(fl[0][1].args[-1]) if fl and fl[0][1].args else None
+        apdef = [(t, v) for st in body for t, v, s2 in stores(st) if isinstance(t, ast.Name) and t.id == apname]
+        if fl:
+            flux_names.add(fl[0][0].id)
         ok = False
         detail = ''
         if apdef and fl:
             v = apdef[0][1]
             sel, meth, rank = want_sel[mode]
             shape_ok = isinstance(v, ast.BinOp) and isinstance(v.op, ast.Mult) and const(v.right) == 1000.0 and isinstance(v.left, ast.BinOp) and isinstance(v.left.op, ast.Mult) \
-                and up(v.left.right).replace(' ', '') == '10.0**info.sc[%s]' % i and up(v.left.left) == sel
+                and up(v.left.right).replace(' ', '') == '10.0**%s.sc[%s]' % (rec, i) and up(v.left.left) == sel
             call = fl[0][1]
-            meth_ok = isinstance(call, ast.Call) and isinstance(call.func, ast.Attribute) and call.func.attr == meth and up(call.args[-1]) == 'apertures'
+            meth_ok = isinstance(call, ast.Call) and isinstance(call.func, ast.Attribute) and call.func.attr == meth and up(call.args[-1]) == apname
             ok = shape_ok and meth_ok
             detail = 'apertures = %s ; flux = %s' % (up(v), up(call))
             ranks[mode] = rank if meth_ok else None
@@ -172,7 +185,7 @@ def run(ctx):
             break
     rank_if = None
     for n_ in walk_local(lp):
-        if isinstance(n_, ast.If) and up(n_.test).replace(' ', '') in ('flux.ndim>1', 'flux.ndim==2', 'flux.ndim>=2'):
+        if isinstance(n_, ast.If) and re.match(r'^(\w+)\.ndim(>1|==2|>=2)$', up(n_.test).replace(' ', '')) and re.match(r'^(\w+)\.', up(n_.test)).group(1) in (flux_names or {'flux'}):
             rank_if = n_
     if ct_if is None or rank_if is None:
         raise AnalysisError('plot(): colour selection not found')
@@ -182,7 +195,7 @@ def run(ctx):
             I = Interp(repo)
             info = Obj(repo.cls('fit_info', 'FitInfo'), {'chi2': symarr('chi2', ('r',))})
             info.attrs['n_fits'] = 3
-            env = {'__module__': pm, 'plot_mode': 'A', 'sed_type': mode, i: 0 if best else 1, 'info': info}
+            env = {'__module__': pm, 'plot_mode': 'A', 'sed_type': mode, i: 0 if best else 1, rec: info}
             I.stmt(ct_if, env, pm)
             ct = env.get('color_type')
             rank = ranks.get(mode)
@@ -193,7 +206,9 @@ def run(ctx):
             # which append executes for this rank, and does it index the colour entry?
             body = rank_if.body if rank > 1 else rank_if.orelse
             env2 = {'__module__': pm, 'color_type': ct, 'colors': [], 'lines': [], 'color': {k: ('RGB',) if v == 'rgb' else GenList(None, ('RGB',)) for k, v in kinds.items()},
-                    'flux': symarr('fl', (N, 'd') if rank > 1 else (N,)), 's': Obj(None, {'wav': symarr('wav', (N,))})}
+                    's': Obj(None, {'wav': symarr('wav', (N,))})}
+            for fn_ in (flux_names or {'flux'}):
+                env2[fn_] = symarr('fl', (N, 'd') if rank > 1 else (N,))
             I2 = Interp(repo)
             I2.block(body, env2, pm)
             cols = env2.get('colors')
